@@ -51,7 +51,7 @@ def reuse_case(core, util, rng, tier):
             s_.i += 1
             return (s_.i - 1, s_.s[s_.i - 1])
     tk = core.StreamTokenizer(val, p["min"], p["max"], p["sil"], init_min=p["imin"], init_max_silence=p["isil"], mode=T.mode_of(p))
-    how = rng.choice(["complete", "complete", "drop", "keep", "late_close", "list", "callback", "upfront"])
+    how = rng.choice(["complete", "complete", "drop", "keep", "late_close", "list", "callback", "upfront", "fault", "fault"])
     ev1 = []
     cur["ev"] = ev1
     gen1 = None
@@ -65,6 +65,29 @@ def reuse_case(core, util, rng, tier):
             pass
     if how == "upfront":
         pass
+    elif how == "fault":
+        # the earlier run is aborted by an exception raised by its source (or its validator) in the middle of a candidate token
+        class Boom(Exception):
+            pass
+        fail_at = rng.randint(1, max(1, len(s1)))
+        seen = [0]
+        src1 = Src(s1 + [True, True], ev1)
+        real_read = src1.read
+
+        def failing_read():
+            if seen[0] == fail_at:
+                raise Boom()
+            seen[0] += 1
+            return real_read()
+        src1.read = failing_read
+        try:
+            if rng.random() < .5:
+                for _ in tk.tokenize(src1, generator=True):
+                    pass
+            else:
+                tk.tokenize(src1)
+        except Boom:
+            pass
     elif how == "complete":
         for _ in tk.tokenize(Src(s1, ev1), generator=True):
             pass
